@@ -66,6 +66,7 @@ type RootD struct {
 	Short  string        `json:"short,omitempty"` // field tagged "id"
 	Long   string        `json:"long,omitempty"`  // field tagged "ID"
 	Any    *VD           `json:"any,omitempty"`
+	Row    *VD           `json:"row,omitempty"` // kinds "row" / "prow": the root value is this Row / a pointer to it
 }
 
 // Op is one operation on the current stack.
@@ -97,7 +98,8 @@ type SeqCase struct {
 // The universes hold the names the ops bind plus names that are only ever read: both tags of the
 // pair "id"/"ID", and wrong-case spellings of tags and field names ("TAGGED", "tAGGED", "Id",
 // "PLAIN", "SUB"), which are neither a field name nor a tag and so must be absent unless bound.
-var bigUniverse = []string{"x", "y", "Plain", "tagged", "Tagged", "hidden", "List", "sub", "Sub", "any", "id", "ID", "Id", "TAGGED", "tAGGED", "PLAIN", "SUB", "ANY"}
+var bigUniverse = []string{"x", "y", "Plain", "tagged", "Tagged", "hidden", "List", "sub", "Sub", "any", "id", "ID", "Id", "TAGGED", "tAGGED", "PLAIN", "SUB", "ANY", "Title", "Note", "note", "Extra"}
+var rowUniverse = []string{"x", "Plain", "ID", "Title", "Note", "note", "Extra", "hidden"}
 var smallUniverse = []string{"x", "Plain", "tagged", "hidden", "id", "ID", "TAGGED"}
 
 func (r RootD) data() any {
@@ -119,6 +121,14 @@ func (r RootD) data() any {
 		return &t
 	case "nilptr":
 		return (*rootT)(nil)
+	case "row":
+		if r.Row != nil {
+			return r.Row.Go()
+		}
+	case "prow":
+		if r.Row != nil {
+			return vList("ptr", *r.Row).Go()
+		}
 	}
 	return nil
 }
@@ -167,16 +177,11 @@ func (m *model) lookup(n string) (v any, src string, ok bool) {
 			return v, "scope", true
 		}
 	}
-	switch r := m.root.(type) {
-	case rootT:
-		if v, out, _ := rootField(r, n); out == reach {
+	// fields of the root value (rootT, *rootT, one of the same-named Row types or a pointer to
+	// one), by ordinary Go selection
+	if m.root != nil {
+		if v, out, _ := index(m.root, Step{K: n}); out == reach {
 			return v, "field", true
-		}
-	case *rootT:
-		if r != nil {
-			if v, out, _ := rootField(*r, n); out == reach {
-				return v, "field", true
-			}
 		}
 	}
 	return nil, "", false
@@ -885,6 +890,12 @@ func TestProp(t *testing.T) {
 		rec.Exhaustive(fmt.Sprintf("all paths of <= 3 steps naming a key with a blank/blank-free twin over the twin zoo, collision partner resolved first, both orders, plain and padded (%d cases, every shard)", tn))
 	}
 
+	// ---- family 2, same-named struct types: every field name on every Row after the same name on
+	// another Row, on one stack, all ordered pairs.
+	if rn, rok := enumRows(rec); rok {
+		rec.Exhaustive(fmt.Sprintf("every field name on each of 9 holders of three distinct struct types all named Row (permuted layouts), after the same name on another holder, all ordered pairs (%d cases, every shard)", rn))
+	}
+
 	run.Witnesses(rec, prop, replay)
 
 	known := kf.Load()
@@ -901,6 +912,9 @@ func TestProp(t *testing.T) {
 				n++
 				if n%shards == shard {
 					c := SeqCase{Root: root, Names: smallUniverse, Ops: append([]Op(nil), prefix...)}
+					if root.Row != nil {
+						c.Names = rowUniverse
+					}
 					nt, cls := classifySeq(c)
 					if !run.Each(rec, "enum", c, nt, cls, checkSeq) {
 						return false
